@@ -138,11 +138,15 @@ ObsGot(m, e) ==
         matched ==
           IF m.inq = <<>> THEN Fail(m, "C08/rx-mismatch/nothing-sent", m)
           ELSE
-          LET p == m.inq[1]
-              pk == IF p.k \in {"closeValid", "closeEmpty", "closeInvalid"} THEN "close" ELSE p.k
-              m1 == [m EXCEPT !.inq = Tail(@)]
+          \* the message APIs keep a first fragment to themselves and hand the completed message out as "data"
+          LET msgApi == m.ops[e.id].api \notin FrameApis
+              q0 == IF msgApi /\ m.inq[1].k = "frag" /\ Len(m.inq) > 1 THEN Tail(m.inq) ELSE m.inq
+              p == q0[1]
+              pk == IF p.k \in {"closeValid", "closeEmpty", "closeInvalid"} THEN "close"
+                    ELSE IF p.k = "cont" /\ msgApi THEN "data" ELSE p.k
+              m1 == [m EXCEPT !.inq = Tail(q0)]
           IN
-          IF pk # e.k \/ (e.k \in {"data", "ping", "pong"} /\ p.t # e.t) THEN Fail(m, "C08/rx-mismatch/" \o pk, m)
+          IF pk # e.k \/ (e.k \in {"data", "ping", "pong", "cont"} /\ p.t # e.t) THEN Fail(m, "C08/rx-mismatch/" \o pk, m)
           ELSE IF e.k = "ping" THEN
             \* AsyncNextMessage goes on reading: it flushes the reply it has just queued
             [m1 EXCEPT !.owed = Append(@, [t |-> e.t, must |-> (m.stage = "active"), due |-> 0]),
